@@ -158,7 +158,19 @@ def one_history(ctx, index: int, rng: random.Random):
                     kw["range"] = ranges[0] if nd == 1 else ranges
                     ranged = True
                     desc["range"] = ranges
-            if nd == 1:
+            via_object = not ranged and vtype is None and n0 >= 2 and rng.random() < 0.2
+            if via_object:
+                # "the bins of that (adaptive) histogram": the facade is given binning objects made from a part of the data - adaptive
+                # bins cover all the data they are constructed with, wherever their bins were when they were handed over
+                k0 = rng.randint(1, n0 - 1)
+                if nd == 1:
+                    base = physt.h1(init[:k0, 0].copy(), method, adaptive=True, **kw)
+                    h = physt.h1(init[:, 0].copy(), base.binning)
+                else:
+                    base = physt.h(init[:k0].copy(), method, adaptive=True, **kw)
+                    h = physt.h(init.copy(), list(base.binnings))
+                desc["via_binning_object"] = k0
+            elif nd == 1:
                 h = physt.h1(init[:, 0].copy() if vtype is None else init[:, 0].astype(vtype), method, adaptive=True, **kw)
             else:
                 h = physt.h(init.copy() if vtype is None else init.astype(vtype), method, adaptive=True, **kw)
